@@ -848,18 +848,20 @@ def fq12_value(rng):
     coeffs = [0] * 12
     if c < 0.08:
         return 'zero', coeffs
-    if c < 0.16:
-        coeffs[0] = 1
-        return 'one', coeffs
-    if c < 0.3:
+    # coefficients are in `to_slice` order: index 11 is c0.c0.c0 (the F_q part), 10 is c0.c0.c1, 8..11 is the F_q^4 part c0
+    if c < 0.14:
+        coeffs[11] = rng.choice([1, 1, q - 1, 2])
+        return {1: 'one', q - 1: 'minus-one', 2: 'two'}[coeffs[11]], coeffs
+    if c < 0.28:
         for i in rng.sample(range(12), rng.randrange(1, 4)):
             coeffs[i] = rng.randrange(q)
         return 'sparse', coeffs
-    if c < 0.4:
-        coeffs[0] = rng.randrange(q)
-        if rng.random() < 0.5:
-            coeffs[1] = rng.randrange(q)
-        return 'subfield', coeffs
+    if c < 0.42:
+        # elements of the subfields F_q, F_q^2, F_q^4 (operands for which an implementation may take a shortcut)
+        k = rng.choice([1, 1, 2, 4])
+        for i in range(12 - k, 12):
+            coeffs[i] = rng.randrange(1, q)
+        return f'subfield-fq{k if k > 1 else ""}', coeffs
     if c < 0.5:
         return 'boundary', [rng.choice(BOUNDARY[q]) for _ in range(12)]
     if c < 0.6:
